@@ -250,7 +250,7 @@ def storage(seed, nops=200, comps=(0, 1, 2, 3, 4, 5)):
     return ops
 
 
-def graphs(seed, nhandlers=8, nsends=6, panic_p=0.0, take_p=0.2, stray_p=0.0):
+def graphs(seed, nhandlers=8, nsends=6, panic_p=0.0, take_p=0.2, stray_p=0.0, dup_recv_p=0.0):
     """C04/C07/C09/C11/C13: dense random handler graphs over the user and structural events, then initial events.
     Handlers mostly send events that other handlers listen for, so propagation nests (budget 24 sends per top-level op)."""
     r = random.Random(seed)
@@ -279,6 +279,10 @@ def graphs(seed, nhandlers=8, nsends=6, panic_p=0.0, take_p=0.2, stray_p=0.0):
             params.append(f"R:{recv}:{'m' if mutable else 'i'}:{q}")
         else:
             params.append(f"R:{recv}:{'m' if mutable else 'i'}")
+            if dup_recv_p and recv in USER_G and r.random() < dup_recv_p:
+                # a second receiver of the same event: two shared ones are fine, anything with a mutable one must be refused
+                # (round-8 change C11_X_1 let two ReceiverMut through: one takes the value, the other still holds it)
+                params.append(f"R:{recv}:{r.choice('mmi')}")
         has_fetch = r.random() < 0.3
         if has_fetch:
             params.append("F:" + r.choice(["(E,r0)", "(E,?r0,?r1,?r2)", "E", "(E,m0)", "!r0"]))
